@@ -202,6 +202,10 @@ def parseXOp (n : Nat) (t : String) : Option XOp :=
     | ["square_assign", d] => some (.squareAssign (nat! d))
     | ["mul_pt_znx", d, a, pd, pb, pq, l] => some (.mulPt (nat! d) (nat! a) (pt! pd pb pq) (parsePt n (pt! pd pb pq) l))
     | ["mul_pt_znx_assign", d, pd, pb, pq, l] => some (.mulPtAssign (nat! d) (pt! pd pb pq) (parsePt n (pt! pd pb pq) l))
+    | ["mul_add_ct", d, a, b] => some (.mulAdd false (nat! d) (nat! a) (nat! b))
+    | ["mul_sub_ct", d, a, b] => some (.mulAdd true (nat! d) (nat! a) (nat! b))
+    | ["mul_add_pt_znx", d, a, pd, pb, pq, l] => some (.mulAddPt false (nat! d) (nat! a) (pt! pd pb pq) (parsePt n (pt! pd pb pq) l))
+    | ["mul_sub_pt_znx", d, a, pd, pb, pq, l] => some (.mulAddPt true (nat! d) (nat! a) (pt! pd pb pq) (parsePt n (pt! pd pb pq) l))
     | "add_many" :: d :: as => some (.addMany (nat! d) (as.map nat!))
     | "dot_ct" :: d :: k :: rest =>
       let k := nat! k
@@ -220,6 +224,7 @@ def parseXOp (n : Nat) (t : String) : Option XOp :=
 def XOp.dstSlot : XOp → Nat
   | .lin op => LOp.dstSlot op
   | .mul d _ _ | .mulAssign d _ | .square d _ | .squareAssign d | .mulPt d _ _ _ | .mulPtAssign d _ _
+  | .mulAdd _ d _ _ | .mulAddPt _ d _ _ _
   | .addMany d _ | .dotCt d _ _ | .dotPt d _ _ _ | .rot d _ _ | .rotAssign d _ | .conj d _ | .conjAssign d => d
 
 def showDstX (p : DPool) : XOp → String
